@@ -100,7 +100,7 @@ Definition nodupb (l : list positive) : bool := nodupb_aux l (PM.empty unit).
 Lemma pm_mem_add (p q : positive) (s : PM.t unit) :
   PM.mem q (PM.add p tt s) = if Pos.eq_dec p q then true else PM.mem q s.
 Proof.
-  unfold PM.mem. destruct (Pos.eq_dec p q) as [->|Hne].
+  rewrite !PM.mem_find. destruct (Pos.eq_dec p q) as [->|Hne].
   - rewrite PM.gss. reflexivity.
   - rewrite PM.gso by (intro; subst; contradiction). reflexivity.
 Qed.
@@ -132,7 +132,7 @@ Qed.
 Lemma set_of_sound l q : PM.mem q (set_of l) = true -> In q l.
 Proof.
   intros H. apply set_of_sound_aux in H. destruct H as [H|H]; [exact H|].
-  unfold PM.mem in H. rewrite PM.gempty in H. discriminate.
+  rewrite PM.mem_find, PM.gempty in H. discriminate.
 Qed.
 
 Lemma NoDup_map_inj_on {A B} (f : A -> B) (l : list A) a b :
@@ -209,3 +209,622 @@ Section PerVersion.
     apply pidx_inj in Hc'; [subst; assumption|apply H3; assumption|apply all_cells_In; assumption].
   Qed.
 End PerVersion.
+
+(* ------------------------------------------------------------------------------------------ *)
+(* 3. generic placement lemmas                                                                *)
+(* ------------------------------------------------------------------------------------------ *)
+(* write the bits along a path, one per cell, stopping when either runs out *)
+Fixpoint place (size : Z) (m : mat) (path : list (Z * Z)) (bs : list bool) : mat :=
+  match path, bs with
+  | c :: ps, b :: bs' => place size (mset size m (fst c) (snd c) b) ps bs'
+  | _, _ => m
+  end.
+
+Lemma find_mset_same size m c b : PM.find (pidx size c) (mset size m (fst c) (snd c) b) = Some b.
+Proof. unfold mset, pidx. apply PM.gss. Qed.
+Lemma find_mset_other size m c b q : pidx size c <> q ->
+  PM.find q (mset size m (fst c) (snd c) b) = PM.find q m.
+Proof. unfold mset, pidx. intros H. apply PM.gso. intro; subst; contradiction. Qed.
+
+(* cells off the path keep their value (in particular all function modules) *)
+Lemma place_notin size path : forall m bs q, ~ In q (map (pidx size) path) ->
+  PM.find q (place size m path bs) = PM.find q m.
+Proof.
+  induction path as [|c ps IH]; intros m bs q Hq; cbn [place]; [reflexivity|].
+  destruct bs as [|b bs]; [reflexivity|].
+  rewrite IH by (intro; apply Hq; now right).
+  apply find_mset_other. intro; subst; apply Hq; now left.
+Qed.
+
+Lemma place_notin_cell size path m bs i j : ~ In (idx size i j) (map (pidx size) path) ->
+  mget size (place size m path bs) i j = mget size m i j.
+Proof. unfold mget. apply place_notin. Qed.
+
+(* general read-back, through an arbitrary observation [h] of the cell content *)
+Lemma read_place_gen {B} (h : option bool -> Z * Z -> B) size path :
+  NoDup (map (pidx size) path) -> forall m bs, (List.length bs <= List.length path)%nat ->
+  map (fun c => h (cget size (place size m path bs) c) c) path =
+  map (fun bc => h (Some (fst bc)) (snd bc)) (combine bs path)
+  ++ map (fun c => h (cget size m c) c) (skipn (List.length bs) path).
+Proof.
+  induction path as [|c ps IH]; intros Hnd m bs Hl.
+  - destruct bs; [reflexivity|cbn in Hl; lia].
+  - cbn [map] in Hnd. inversion Hnd as [|x xs Hc Hnd']; subst.
+    destruct bs as [|b bs]; [reflexivity|].
+    cbn [place combine map List.length skipn app fst snd]. f_equal.
+    + unfold cget, mget. change (idx size (fst c) (snd c)) with (pidx size c).
+      rewrite place_notin by assumption. rewrite find_mset_same. reflexivity.
+    + rewrite IH by (cbn in Hl; auto; lia). f_equal.
+      apply map_ext_in. intros c' Hc'. apply skipn_In in Hc'.
+      unfold cget, mget. change (idx size (fst c') (snd c')) with (pidx size c').
+      rewrite find_mset_other; [reflexivity|]. intro E. apply Hc. rewrite E. now apply in_map.
+Qed.
+
+Theorem read_place size path : NoDup (map (pidx size) path) -> forall m bs,
+  List.length bs = List.length path ->
+  map (cget size (place size m path bs)) path = map Some bs.
+Proof.
+  intros Hnd m bs Hl.
+  assert (Hle : (List.length bs <= List.length path)%nat) by lia.
+  pose proof (read_place_gen (fun o _ => o) size path Hnd m bs Hle) as H. cbv beta in H.
+  refine (eq_trans H _). rewrite Hl, skipn_all, app_nil_r.
+  clear H Hnd Hle. revert bs Hl. induction path as [|c ps IH]; intros [|b bs] Hl; try discriminate; [reflexivity|].
+  cbn [combine map fst]. f_equal. apply IH. now injection Hl.
+Qed.
+
+(* add_codewords tests "cell unset" on the matrix it mutates; for a duplicate-free visiting order this is
+   placing along the cells that are free in the INITIAL matrix *)
+Lemma place_visit_path size visit : NoDup (map (pidx size) visit) -> forall m bs,
+  place_visit size m visit bs =
+  (place size m (filter (freeb size m) visit) bs,
+   skipn (List.length (filter (freeb size m) visit)) bs).
+Proof.
+  induction visit as [|c ps IH]; intros Hnd m bs; [reflexivity|].
+  cbn [map] in Hnd. inversion Hnd as [|x xs Hc Hnd']; subst.
+  destruct c as [i j]. cbn [place_visit filter].
+  assert (Hfr : freeb size m (i, j) = match mget size m i j with None => true | Some _ => false end)
+    by reflexivity.
+  rewrite Hfr. clear Hfr.
+  destruct (mget size m i j) eqn:E.
+  - apply IH. assumption.
+  - destruct bs as [|b bs].
+    + rewrite IH by assumption. cbn [place]. rewrite !skipn_nil.
+      destruct (filter (freeb size m) ps); reflexivity.
+    + rewrite IH by assumption.
+      assert (Hf : filter (freeb size (mset size m i j b)) ps = filter (freeb size m) ps).
+      { apply filter_ext_in. intros c' Hc'. unfold freeb, mget.
+        change (idx size (fst c') (snd c')) with (pidx size c').
+        change (mset size m i j b) with (mset size m (fst (i, j)) (snd (i, j)) b).
+        rewrite find_mset_other; [reflexivity|]. intro E'. apply Hc. rewrite E'. now apply in_map. }
+      rewrite Hf. reflexivity.
+Qed.
+
+Lemma add_codewords_place size version m bs m' :
+  NoDup (map (pidx size) (visit_order size version)) ->
+  add_codewords size version m bs = Ok m' ->
+  m' = place size m (filter (freeb size m) (visit_order size version)) bs
+  /\ (List.length bs <= List.length (filter (freeb size m) (visit_order size version)))%nat.
+Proof.
+  intros Hnd H. unfold add_codewords in H. rewrite place_visit_path in H by assumption.
+  destruct (skipn _ bs) eqn:E; [|discriminate]. injection H as <-. split; [reflexivity|].
+  apply (f_equal (@List.length bool)) in E. rewrite skipn_length in E. cbn in E. lia.
+Qed.
+
+(* ------------------------------------------------------------------------------------------ *)
+(* 4. masking                                                                                 *)
+(* ------------------------------------------------------------------------------------------ *)
+Definition mask_step (size : Z) (f : Z -> Z -> bool) (m : mat) (c : Z * Z) : mat :=
+  let '(i, j) := c in
+  match mget size m i j with Some b => mset size m i j (xorb b (f i j)) | None => m end.
+
+Lemma apply_mask_fold size m reg f : apply_mask size m reg f = fold_left (mask_step size f) reg m.
+Proof. reflexivity. Qed.
+
+Lemma find_none_notin size reg q : ~ In q (map (pidx size) reg) ->
+  find (fun c => Pos.eqb (pidx size c) q) reg = None.
+Proof.
+  induction reg as [|c ps IH]; intros H; [reflexivity|]. cbn [find].
+  destruct (Pos.eqb_spec (pidx size c) q) as [E|E].
+  - exfalso. apply H. left. exact E.
+  - apply IH. intro; apply H; now right.
+Qed.
+
+Lemma mask_step_find size f m c q :
+  PM.find q (mask_step size f m c) =
+  if Pos.eqb (pidx size c) q then option_map (fun b => xorb b (f (fst c) (snd c))) (PM.find q m)
+  else PM.find q m.
+Proof.
+  destruct c as [i j]. unfold mask_step. cbn [fst snd].
+  destruct (Pos.eqb_spec (pidx size (i, j)) q) as [E|E].
+  - subst q. unfold mget. change (pidx size (i, j)) with (idx size i j).
+    destruct (PM.find (idx size i j) m) eqn:F; cbn [option_map].
+    + unfold mset. apply PM.gss.
+    + exact F.
+  - destruct (mget size m i j); [|reflexivity].
+    unfold mset. apply PM.gso. intro; subst; apply E; reflexivity.
+Qed.
+
+(* total description of apply_mask on a duplicate-free region: exactly the present cells of the region
+   are xor-ed with the mask predicate, every other key is unchanged *)
+Theorem apply_mask_find size reg f : NoDup (map (pidx size) reg) -> forall m q,
+  PM.find q (apply_mask size m reg f) =
+  match find (fun c => Pos.eqb (pidx size c) q) reg with
+  | Some c => option_map (fun b => xorb b (f (fst c) (snd c))) (PM.find q m)
+  | None => PM.find q m
+  end.
+Proof.
+  intros Hnd m q. rewrite apply_mask_fold. revert Hnd m q.
+  induction reg as [|c ps IH]; intros Hnd m q; [reflexivity|].
+  cbn [map] in Hnd. inversion Hnd as [|x xs Hc Hnd']; subst.
+  cbn [fold_left find]. rewrite IH by assumption. rewrite mask_step_find.
+  destruct (Pos.eqb_spec (pidx size c) q) as [E|E].
+  - subst q. rewrite find_none_notin by assumption. reflexivity.
+  - reflexivity.
+Qed.
+
+Lemma find_some_in size reg c : NoDup (map (pidx size) reg) -> In c reg ->
+  find (fun c' => Pos.eqb (pidx size c') (pidx size c)) reg = Some c.
+Proof.
+  induction reg as [|x ps IH]; intros Hnd Hin; [destruct Hin|].
+  cbn [map] in Hnd. inversion Hnd as [|y ys Hx Hnd']; subst. cbn [find].
+  destruct (Pos.eqb_spec (pidx size x) (pidx size c)) as [E|E].
+  - destruct Hin as [->|Hin]; [reflexivity|]. exfalso. apply Hx. rewrite E. now apply in_map.
+  - destruct Hin as [->|Hin]; [contradiction|]. apply IH; assumption.
+Qed.
+
+Corollary apply_mask_in size reg f m i j : NoDup (map (pidx size) reg) -> In (i, j) reg ->
+  mget size (apply_mask size m reg f) i j = option_map (fun b => xorb b (f i j)) (mget size m i j).
+Proof.
+  intros Hnd Hin. unfold mget. change (idx size i j) with (pidx size (i, j)).
+  rewrite apply_mask_find by assumption. rewrite find_some_in by assumption. reflexivity.
+Qed.
+
+Corollary apply_mask_notin size reg f m i j : NoDup (map (pidx size) reg) ->
+  ~ In (idx size i j) (map (pidx size) reg) ->
+  mget size (apply_mask size m reg f) i j = mget size m i j.
+Proof.
+  intros Hnd Hin. unfold mget. rewrite apply_mask_find by assumption.
+  rewrite find_none_notin by assumption. reflexivity.
+Qed.
+
+Theorem apply_mask_twice size reg f m i j : NoDup (map (pidx size) reg) ->
+  mget size (apply_mask size (apply_mask size m reg f) reg f) i j = mget size m i j.
+Proof.
+  intros Hnd. unfold mget. rewrite !apply_mask_find by assumption.
+  destruct (find _ reg) as [c|]; [|reflexivity].
+  destruct (PM.find (idx size i j) m) as [b|]; cbn [option_map]; [|reflexivity].
+  rewrite xorb_assoc, xorb_nilpotent, xorb_false_r. reflexivity.
+Qed.
+
+(* the region of the model is duplicate-free *)
+Lemma NoDup_map_pidx_filter size (p : Z * Z -> bool) l :
+  NoDup (map (pidx size) l) -> NoDup (map (pidx size) (filter p l)).
+Proof.
+  induction l as [|c l IH]; intros H; [constructor|].
+  cbn [map] in H. inversion H as [|x xs Hc Hnd]; subst. cbn [filter].
+  destruct (p c); [|auto]. cbn [map]. constructor; [|auto].
+  intro Hin. apply Hc. apply in_map_iff in Hin. destruct Hin as [c' [E Hc']].
+  apply filter_In in Hc'. rewrite <- E. apply in_map. tauto.
+Qed.
+
+Lemma NoDup_app_intro {A} (l1 l2 : list A) : NoDup l1 -> NoDup l2 ->
+  (forall x, In x l1 -> In x l2 -> False) -> NoDup (l1 ++ l2).
+Proof.
+  intros H1 H2 Hd. induction H1 as [|a l Ha Hl IH]; [exact H2|].
+  cbn [app]. constructor.
+  - intro Hin. apply in_app_or in Hin. destruct Hin as [Hin|Hin]; [contradiction|].
+    apply (Hd a); [now left|assumption].
+  - apply IH. intros x Hx1 Hx2. apply (Hd x); [now right|assumption].
+Qed.
+Lemma NoDup_map_inj {A B} (f : A -> B) (l : list A) :
+  (forall x y, f x = f y -> x = y) -> NoDup l -> NoDup (map f l).
+Proof.
+  intros Hf H. induction H as [|a l Ha Hl IH]; cbn [map]; constructor; [|exact IH].
+  intro Hin. apply in_map_iff in Hin. destruct Hin as [y [E Hy]]. apply Hf in E. subst. contradiction.
+Qed.
+Lemma NoDup_product {A B} (l1 : list A) (l2 : list B) : NoDup l1 -> NoDup l2 ->
+  NoDup (flat_map (fun i => map (fun j => (i, j)) l2) l1).
+Proof.
+  intros H1 H2. induction H1 as [|a l Ha Hl IH]; cbn [flat_map]; [constructor|].
+  apply NoDup_app_intro.
+  - apply NoDup_map_inj; [intros x y E; congruence|assumption].
+  - exact IH.
+  - intros c Hc1 Hc2. apply in_map_iff in Hc1. destruct Hc1 as [j [<- _]].
+    apply in_flat_map in Hc2. destruct Hc2 as [i [Hi Hc]]. apply in_map_iff in Hc.
+    destruct Hc as [j' [E _]]. injection E as E1 E2. subst. contradiction.
+Qed.
+Lemma NoDup_all_cells size : NoDup (all_cells size).
+Proof. unfold all_cells. apply NoDup_product; apply zrange_aux_NoDup. Qed.
+
+Lemma NoDup_map_inj_in {A B} (f : A -> B) (l : list A) :
+  (forall x y, In x l -> In y l -> f x = f y -> x = y) -> NoDup l -> NoDup (map f l).
+Proof.
+  intros Hf H. induction H as [|a l Ha Hl IH]; cbn [map]; constructor.
+  - intro Hin. apply in_map_iff in Hin. destruct Hin as [y [E Hy]].
+    apply Hf in E; [subst; contradiction|now right|now left].
+  - apply IH. intros x y Hx Hy. apply Hf; now right.
+Qed.
+
+Lemma NoDup_pidx_all_cells size : NoDup (map (pidx size) (all_cells size)).
+Proof.
+  apply NoDup_map_inj_in; [|apply NoDup_all_cells].
+  intros x y Hx Hy. apply all_cells_In in Hx, Hy. apply pidx_inj; assumption.
+Qed.
+
+Lemma region_freeb size fm : region size fm = filter (freeb size fm) (all_cells size).
+Proof. unfold region. apply filter_ext. intros [i j]. reflexivity. Qed.
+
+Lemma NoDup_pidx_region size fm : NoDup (map (pidx size) (region size fm)).
+Proof. rewrite region_freeb. apply NoDup_map_pidx_filter. apply NoDup_pidx_all_cells. Qed.
+
+Lemma region_In size fm c : In c (region size fm) <-> in_rangeb size c = true /\ freeb size fm c = true.
+Proof. rewrite region_freeb, filter_In, all_cells_In. reflexivity. Qed.
+
+(* ------------------------------------------------------------------------------------------ *)
+(* 5. format and version information do not touch data modules                                *)
+(* ------------------------------------------------------------------------------------------ *)
+Lemma set_all_other size cells : forall m i j,
+  (forall i' j' b, In (i', j', b) cells -> idx size i' j' <> idx size i j) ->
+  mget size (set_all size m cells) i j = mget size m i j.
+Proof.
+  unfold set_all. induction cells as [|[[i' j'] b] r IH]; intros m i j H; [reflexivity|].
+  cbn [fold_left]. rewrite IH by (intros; eapply H; right; eassumption).
+  unfold mget, mset. apply PM.gso. intro E. apply (H i' j' b); [now left|]. symmetry. exact E.
+Qed.
+
+Lemma idx_neq size i j i' j' :
+  0 <= i < size -> 0 <= j < size -> 0 <= i' < size -> 0 <= j' < size ->
+  (i' <> i \/ j' <> j) -> idx size i' j' <> idx size i j.
+Proof. intros Hi Hj Hi' Hj' Hne E. apply idx_inj in E; try assumption. lia. Qed.
+
+Lemma add_format_info_other size version error k m m' i j :
+  9 <= size -> 0 <= i < size -> 0 <= j < size -> off_infob size version (i, j) = true ->
+  add_format_info size version error k m = Ok m' -> mget size m' i j = mget size m i j.
+Proof.
+  intros Hs Hi Hj Hoff H. unfold add_format_info in H.
+  destruct (calc_format_info version error k) as [fi|e]; cbn [bind] in H; [|discriminate].
+  unfold off_infob in Hoff. cbn [fst snd] in Hoff.
+  match type of H with context [set_all size m ?c] => set (cells := c) in H end.
+  assert (Hset : mget size (set_all size m cells) i j = mget size m i j).
+  { subst cells. apply set_all_other. intros i' j' b Hin.
+    apply in_flat_map in Hin. destruct Hin as [x [Hx Hin]]. apply zrange_In_inv in Hx.
+    cbv zeta in Hin. apply in_app_or in Hin.
+    destruct (version <? 1) eqn:Hm.
+    - destruct Hin as [Hin|[]]. destruct Hin as [E|[E|[]]]; injection E as <- <- _;
+        apply idx_neq; lia.
+    - destruct (6 <=? x) eqn:H6;
+        (destruct Hin as [Hin|Hin]; [destruct Hin as [E|[E|[]]]|destruct Hin as [E|[E|[]]]];
+         injection E as <- <- _; apply idx_neq; lia). }
+  clearbody cells. injection H as <-.
+  destruct (version <? 1) eqn:Hm.
+  - exact Hset.
+  - unfold mget at 1. unfold mset. rewrite PM.gso.
+    + exact Hset.
+    + apply idx_neq; lia.
+Qed.
+
+Lemma add_version_info_other size version m m' i j :
+  11 <= size -> 0 <= i < size -> 0 <= j < size -> off_infob size version (i, j) = true ->
+  add_version_info size version m = Ok m' -> mget size m' i j = mget size m i j.
+Proof.
+  intros Hs Hi Hj Hoff H. unfold add_version_info in H.
+  destruct (version <? 7) eqn:H7; [injection H as <-; reflexivity|].
+  destruct (nthZ VERSION_INFO (version - 7)) as [vi|e]; cbn [bind] in H; [|discriminate].
+  unfold off_infob in Hoff. cbn [fst snd] in Hoff.
+  match type of H with context [set_all size m ?c] => set (cells := c) in H end.
+  assert (Hset : mget size (set_all size m cells) i j = mget size m i j);
+    [|clearbody cells; injection H as <-; exact Hset].
+  subst cells. clear H.
+  apply set_all_other. intros i' j' b Hin.
+  apply in_flat_map in Hin. destruct Hin as [x [Hx Hin]]. apply zrange_In_inv in Hx.
+  cbv zeta in Hin.
+  destruct Hin as [E|[E|[E|[E|[E|[E|[]]]]]]]; injection E as <- <- _; apply idx_neq; lia.
+Qed.
+
+(* ------------------------------------------------------------------------------------------ *)
+(* 6. the implementation's mask predicates are the ISO ones                                   *)
+(* ------------------------------------------------------------------------------------------ *)
+Lemma land_1 x : Z.land x 1 = x mod 2.
+Proof. change 1 with (Z.ones 1) at 1. rewrite Z.land_ones by lia. reflexivity. Qed.
+
+Theorem mask_fn_iso micro k i j : mask_fn micro k i j = iso_mask_for micro k i j.
+Proof.
+  unfold mask_fn, iso_mask_for, micro_mask_index, iso_mask. rewrite !land_1.
+  destruct micro; reflexivity.
+Qed.
+
+(* ------------------------------------------------------------------------------------------ *)
+(* 7. rows_of / cell                                                                          *)
+(* ------------------------------------------------------------------------------------------ *)
+Lemma lenZ_rows_of size m : 0 <= size -> lenZ (rows_of size m) = size.
+Proof. intros H. unfold lenZ, rows_of. rewrite map_length, zrange_length. lia. Qed.
+
+Lemma cell_rows_of size m i j : 0 <= i < size -> 0 <= j < size ->
+  cell (rows_of size m) i j = match mget size m i j with Some b => b | None => false end.
+Proof.
+  intros Hi Hj. unfold cell, rows_of.
+  rewrite (nth_map_zrange (fun i0 => map (fun j0 => match mget size m i0 j0 with Some b => b | None => false end)
+                                         (zrange 0 size)) size i []) by assumption.
+  rewrite (nth_map_zrange (fun j0 => match mget size m i j0 with Some b => b | None => false end) size j false)
+    by assumption.
+  reflexivity.
+Qed.
+
+(* ------------------------------------------------------------------------------------------ *)
+(* 8. per-version consequences: data positions, region                                        *)
+(* ------------------------------------------------------------------------------------------ *)
+Lemma function_matrix_base size :
+  function_matrix size =
+  (do m2 <- base_matrix size; Ok (if size <? 21 then m2 else mset size m2 (size - 8) 8 true)).
+Proof.
+  unfold function_matrix, base_matrix.
+  destruct (add_finder_patterns size (make_matrix size true true)); reflexivity.
+Qed.
+
+Lemma size_bounds v : -3 <= v <= 40 ->
+  11 <= calc_matrix_size v <= 177 /\ (calc_matrix_size v <? 21) = (v <? 1).
+Proof. intros Hv. unfold calc_matrix_size. destruct (0 <? v) eqn:E; lia. Qed.
+
+Lemma map_fst_combine {A B} (bs : list A) : forall (l : list B),
+  (List.length bs <= List.length l)%nat -> map fst (combine bs l) = bs.
+Proof.
+  induction bs as [|b bs IH]; intros [|c l] H; cbn in H; try lia; [reflexivity| reflexivity|].
+  cbn [combine map fst]. f_equal. apply IH. lia.
+Qed.
+
+Section PerVersion2.
+  Variables (v size : Z) (m2 fm : mat).
+  Hypothesis Hv : -3 <= v <= 40.
+  Hypothesis Hsize : size = calc_matrix_size v.
+  Hypothesis Hbase : base_matrix size = Ok m2.
+  Hypothesis Hfm : function_matrix size = Ok fm.
+
+  (* the decoder's ISO placement order restricted to ISO data modules is the model's visiting order
+     restricted to the cells left unset by the function patterns *)
+  Theorem visit_filter_ok :
+    filter (fun '(i, j) => match mget size m2 i j with None => true | Some _ => false end)
+           (visit_order size v) = data_positions size
+    /\ NoDup (visit_order size v)
+    /\ (forall i j, In (i, j) (visit_order size v) -> 0 <= i < size /\ 0 <= j < size).
+  Proof.
+    destruct (version_facts v size m2 Hv Hsize Hbase) as (Hdp & Hnd & Hr & _ & _).
+    split; [|split].
+    - rewrite <- Hdp. apply filter_ext. intros [i j]. reflexivity.
+    - apply NoDup_map_inv in Hnd. exact Hnd.
+    - intros i j Hin. apply Hr in Hin. apply in_rangeb_spec in Hin. exact Hin.
+  Qed.
+
+  Lemma data_positions_In c :
+    In c (data_positions size) <-> in_rangeb size c = true /\ freeb size m2 c = true.
+  Proof.
+    destruct (version_facts v size m2 Hv Hsize Hbase) as (Hdp & _ & Hr & _ & Hcov).
+    rewrite <- Hdp, filter_In. split.
+    - intros [H1 H2]. split; [apply Hr; exact H1|exact H2].
+    - intros [H1 H2]. split; [apply Hcov; assumption|exact H2].
+  Qed.
+
+  Lemma NoDup_pidx_data_positions : NoDup (map (pidx size) (data_positions size)).
+  Proof.
+    destruct (version_facts v size m2 Hv Hsize Hbase) as (Hdp & Hnd & _).
+    rewrite <- Hdp. apply NoDup_map_pidx_filter. exact Hnd.
+  Qed.
+
+  Lemma data_positions_off c : In c (data_positions size) -> off_infob size v c = true.
+  Proof. destruct (version_facts v size m2 Hv Hsize Hbase) as (_ & _ & _ & Hoff & _). apply Hoff. Qed.
+
+  Lemma freeb_fm c : in_rangeb size c = true ->
+    freeb size fm c = true <-> freeb size m2 c = true /\ (size <? 21 = true \/ c <> (size - 8, 8)).
+  Proof.
+    intros Hr. rewrite function_matrix_base, Hbase in Hfm. cbn [bind] in Hfm. injection Hfm as <-.
+    destruct (size_bounds v Hv) as [Hb Hm]. rewrite <- Hsize in Hb, Hm.
+    destruct (size <? 21) eqn:E; [tauto|].
+    unfold freeb, mget, mset.
+    destruct c as [i j]. cbn [fst snd]. apply in_rangeb_spec in Hr. cbn [fst snd] in Hr.
+    destruct (Pos.eq_dec (idx size (size - 8) 8) (idx size i j)) as [Eq|Ne].
+    - rewrite Eq, PM.gss. apply idx_inj in Eq; try lia. destruct Eq as [<- <-].
+      split; [discriminate|]. intros [_ [H|H]]; [discriminate|congruence].
+    - rewrite PM.gso by (intro; apply Ne; congruence). split; [|tauto].
+      intros H. split; [exact H|]. right. intro Ec. injection Ec as -> ->. apply Ne. reflexivity.
+  Qed.
+
+  (* the encoding region of the model (cells unset in the function matrix) is, as a set, the set of
+     unset cells of the base matrix, i.e. the set of ISO data positions *)
+  Theorem region_is_data_positions c : In c (region size fm) <-> In c (data_positions size).
+  Proof.
+    rewrite region_In, data_positions_In. split.
+    - intros [Hr Hf]. apply freeb_fm in Hf; tauto.
+    - intros [Hr Hf]. split; [exact Hr|]. apply freeb_fm; [exact Hr|]. split; [exact Hf|].
+      assert (Hin : In c (data_positions size)) by (apply data_positions_In; tauto).
+      apply data_positions_off in Hin. unfold off_infob in Hin.
+      destruct (size_bounds v Hv) as [Hb Hm]. rewrite <- Hsize in Hb, Hm.
+      destruct (size <? 21) eqn:E; [now left|right].
+      intro Ec. subst c. cbn [fst snd] in Hin. lia.
+  Qed.
+End PerVersion2.
+
+(* ------------------------------------------------------------------------------------------ *)
+(* 9. main theorem                                                                            *)
+(* ------------------------------------------------------------------------------------------ *)
+Definition mask_bits (size k : Z) (cells : list (Z * Z)) : list bool :=
+  map (fun c => iso_mask_for (size <? 21) k (fst c) (snd c)) cells.
+
+Theorem read_stream_of_model : forall version size m2 final m3 k fm m4 m5 m6 error,
+  -3 <= version <= 40 -> size = calc_matrix_size version ->
+  (do m1 <- add_finder_patterns size (make_matrix size true true); add_alignment_patterns size m1) = Ok m2 ->
+  add_codewords size version m2 final = Ok m3 ->
+  function_matrix size = Ok fm ->
+  m4 = apply_mask size m3 (region size fm) (mask_fn (size <? 21) k) ->
+  add_format_info size version error k m4 = Ok m5 ->
+  add_version_info size version m5 = Ok m6 ->
+  (List.length final <= List.length (data_positions size))%nat /\
+  read_stream (rows_of size m6) k =
+    final ++ mask_bits size k (skipn (List.length final) (data_positions size)).
+Proof.
+  intros version size m2 final m3 k fm m4 m5 m6 error Hv Hsize Hbase Hcw Hfm Hm4 Hfi Hvi.
+  change (base_matrix size = Ok m2) in Hbase.
+  destruct (size_bounds version Hv) as [Hb Hm]. rewrite <- Hsize in Hb, Hm.
+  destruct (version_facts version size m2 Hv Hsize Hbase) as (Hdp & Hnd & Hr & Hoff & Hcov).
+  pose proof (NoDup_pidx_data_positions version size m2 Hv Hsize Hbase) as Hnd_dp.
+  apply add_codewords_place in Hcw; [|exact Hnd]. rewrite Hdp in Hcw. destruct Hcw as [Hm3 Hlen].
+  split; [exact Hlen|].
+  unfold read_stream. rewrite lenZ_rows_of by lia. unfold is_micro_size.
+  set (dp := data_positions size) in *.
+  set (f := fun c : Z * Z => iso_mask_for (size <? 21) k (fst c) (snd c)).
+  set (h := fun (o : option bool) (c : Z * Z) =>
+              xorb (match option_map (fun b => xorb b (f c)) o with Some b => b | None => false end) (f c)).
+  transitivity (map (fun c => h (cget size m3 c) c) dp).
+  - apply map_ext_in. intros [i j] Hin.
+    assert (Hrange : in_rangeb size (i, j) = true).
+    { apply (data_positions_In version size m2 Hv Hsize Hbase). exact Hin. }
+    pose proof Hrange as Hrange'. apply in_rangeb_spec in Hrange'. cbn [fst snd] in Hrange'.
+    destruct Hrange' as [Hi Hj].
+    rewrite cell_rows_of by assumption.
+    pose proof (Hoff _ Hin) as Hoff'.
+    rewrite (add_version_info_other size version m5 m6 i j) by (assumption || lia).
+    rewrite (add_format_info_other size version error k m4 m5 i j) by (assumption || lia).
+    rewrite Hm4. rewrite apply_mask_in.
+    + unfold h, f, cget. cbn [fst snd]. rewrite mask_fn_iso. reflexivity.
+    + apply NoDup_pidx_region.
+    + apply (region_is_data_positions version size m2 fm Hv Hsize Hbase Hfm). exact Hin.
+  - rewrite Hm3. rewrite read_place_gen by assumption. f_equal.
+    + transitivity (map fst (combine final dp)); [|apply map_fst_combine; exact Hlen].
+      apply map_ext. intros [b c]. unfold h. cbn [fst snd option_map].
+      rewrite xorb_assoc, xorb_nilpotent, xorb_false_r. reflexivity.
+    + unfold mask_bits. apply map_ext_in. intros c Hin. apply skipn_In in Hin.
+      apply (data_positions_In version size m2 Hv Hsize Hbase) in Hin. destruct Hin as [_ Hfree].
+      unfold freeb in Hfree. unfold h, cget. destruct (mget size m2 (fst c) (snd c)); [discriminate|].
+      cbn [option_map]. apply xorb_false_l.
+Qed.
+Print Assumptions read_stream_of_model.
+
+(* when the message fills the encoding region exactly, the decoder reads back exactly the message *)
+Corollary read_stream_of_model_exact : forall version size m2 final m3 k fm m4 m5 m6 error,
+  -3 <= version <= 40 -> size = calc_matrix_size version ->
+  (do m1 <- add_finder_patterns size (make_matrix size true true); add_alignment_patterns size m1) = Ok m2 ->
+  add_codewords size version m2 final = Ok m3 ->
+  function_matrix size = Ok fm ->
+  m4 = apply_mask size m3 (region size fm) (mask_fn (size <? 21) k) ->
+  add_format_info size version error k m4 = Ok m5 ->
+  add_version_info size version m5 = Ok m6 ->
+  List.length final = List.length (data_positions size) ->
+  read_stream (rows_of size m6) k = final.
+Proof.
+  intros version size m2 final m3 k fm m4 m5 m6 error Hv Hsize Hbase Hcw Hfm Hm4 Hfi Hvi Hlen.
+  destruct (read_stream_of_model version size m2 final m3 k fm m4 m5 m6 error Hv Hsize Hbase Hcw Hfm Hm4 Hfi Hvi)
+    as [_ H].
+  rewrite H, Hlen, skipn_all. unfold mask_bits. cbn [map]. apply app_nil_r.
+Qed.
+Print Assumptions read_stream_of_model_exact.
+
+(* ------------------------------------------------------------------------------------------ *)
+(* 10. the same through encode_core                                                           *)
+(* ------------------------------------------------------------------------------------------ *)
+Lemma best_mask_loop_shape size micro m reg ks : forall score best k mk,
+  best_mask_loop size micro m reg ks score best = Some (k, mk) ->
+  best = Some (k, mk) \/ mk = apply_mask size m reg (mask_fn micro k).
+Proof.
+  induction ks as [|k0 r IH]; intros score best k mk H; cbn [best_mask_loop] in H; [now left|].
+  cbv zeta in H.
+  match type of H with (if ?c then _ else _) = _ => destruct c end.
+  - apply IH in H. destruct H as [H|H]; [|now right]. injection H as <- <-. now right.
+  - apply IH in H. exact H.
+Qed.
+
+Lemma find_and_apply_best_mask_shape size m proposed k m4 :
+  find_and_apply_best_mask size m proposed = Ok (k, m4) ->
+  exists fm, function_matrix size = Ok fm /\
+             m4 = apply_mask size m (region size fm) (mask_fn (size <? 21) k).
+Proof.
+  unfold find_and_apply_best_mask. intros H.
+  destruct (function_matrix size) as [fm|e]; cbn [bind] in H; [|discriminate].
+  exists fm. split; [reflexivity|]. cbv zeta in H.
+  destruct proposed as [k0|].
+  - injection H as <- <-. reflexivity.
+  - match type of H with match ?b with _ => _ end = _ => destruct b as [[k1 mk]|] eqn:E end; [|discriminate].
+    injection H as -> ->. apply best_mask_loop_shape in E. destruct E as [E|E]; [discriminate|exact E].
+Qed.
+
+Ltac bind_step H x E :=
+  match type of H with
+  | bind ?r _ = Ok _ => destruct r as [x|?] eqn:E; cbn [bind] in H; [|discriminate H]
+  end.
+
+Theorem read_stream_of_encode_core : forall segs error version mask eci boost sa code,
+  -3 <= version <= 40 ->
+  encode_core segs error version mask eci boost sa = Ok code ->
+  exists buff final,
+    data_stream segs (c_error code) version eci sa = Ok buff /\
+    make_final_message version (c_error code) buff = Ok final /\
+    (List.length final <= List.length (data_positions (calc_matrix_size version)))%nat /\
+    read_stream (c_matrix code) (c_mask code) =
+      final ++ mask_bits (calc_matrix_size version) (c_mask code)
+                 (skipn (List.length final) (data_positions (calc_matrix_size version))).
+Proof.
+  intros segs error version mask eci boost sa code Hv H.
+  unfold encode_core in H.
+  bind_step H error' Eerr. bind_step H buff Ebuff. bind_step H final Efinal. cbv zeta in H.
+  bind_step H m1 E1. bind_step H m2 E2. bind_step H m3 E3.
+  bind_step H km4 E4. destruct km4 as [k m4].
+  bind_step H m5 E5. bind_step H m6 E6. injection H as <-. cbn [c_error c_matrix c_mask].
+  exists buff, final. split; [exact Ebuff|]. split; [exact Efinal|].
+  apply find_and_apply_best_mask_shape in E4. destruct E4 as [fm [Hfm Hm4]].
+  apply (read_stream_of_model version (calc_matrix_size version) m2 final m3 k fm m4 m5 m6 error').
+  - exact Hv.
+  - reflexivity.
+  - rewrite E1. cbn [bind]. exact E2.
+  - exact E3.
+  - exact Hfm.
+  - exact Hm4.
+  - exact E5.
+  - exact E6.
+Qed.
+Print Assumptions read_stream_of_encode_core.
+
+Corollary read_stream_of_encode_core_exact : forall segs error version mask eci boost sa code,
+  -3 <= version <= 40 ->
+  encode_core segs error version mask eci boost sa = Ok code ->
+  exists buff final,
+    data_stream segs (c_error code) version eci sa = Ok buff /\
+    make_final_message version (c_error code) buff = Ok final /\
+    (List.length final = List.length (data_positions (calc_matrix_size version)) ->
+     read_stream (c_matrix code) (c_mask code) = final).
+Proof.
+  intros segs error version mask eci boost sa code Hv H.
+  destruct (read_stream_of_encode_core _ _ _ _ _ _ _ _ Hv H) as [buff [final [H1 [H2 [_ H4]]]]].
+  exists buff, final. split; [exact H1|]. split; [exact H2|]. intros Hlen.
+  rewrite H4, Hlen, skipn_all. unfold mask_bits. cbn [map]. apply app_nil_r.
+Qed.
+Print Assumptions read_stream_of_encode_core_exact.
+
+
+(* ------------------------------------------------------------------------------------------ *)
+(* 11. the variant "read_stream _ = final ++ repeat false _" is FALSE: cells that add_codewords  *)
+(*     leaves unset are not masked by apply_mask, rows_of renders them light, and the decoder    *)
+(*     then releases the mask on them, i.e. they read back as the mask bit, not as 0.            *)
+(*     Counterexample: version 1, final = [], mask 0: all hypotheses of read_stream_of_model     *)
+(*     hold, and the stream read back is the mask pattern 0 on the 208 data modules.             *)
+(* ------------------------------------------------------------------------------------------ *)
+Lemma repeat_false_padding_is_false :
+  match (do m2 <- base_matrix 21;
+         do m3 <- add_codewords 21 1 m2 [];
+         do fm <- function_matrix 21;
+         do m5 <- add_format_info 21 1 None 0 (apply_mask 21 m3 (region 21 fm) (mask_fn (21 <? 21) 0));
+         do m6 <- add_version_info 21 1 m5;
+         Ok (read_stream (rows_of 21 m6) 0)) with
+  | Ok stream => (List.length stream =? List.length (data_positions 21))%nat
+                 && existsb (fun b => b) stream        (* not all false *)
+                 && Bool.eqb (hd false stream) true
+  | Err _ => false
+  end = true.
+Proof. vm_compute. reflexivity. Qed.
+
+Print Assumptions visit_filter_ok.
+Print Assumptions region_is_data_positions.
+Print Assumptions place_visit_path.
+Print Assumptions read_place.
+Print Assumptions apply_mask_find.
+Print Assumptions apply_mask_twice.
+Print Assumptions add_format_info_other.
+Print Assumptions add_version_info_other.
+Print Assumptions mask_fn_iso.
+Print Assumptions repeat_false_padding_is_false.
